@@ -212,7 +212,7 @@ func (r *RigS) onRegistration(st *SimStream) {
 			// a stream that was replicated before comes back without a position: everything published meanwhile is skipped
 			if un := r.unacked(tgt, st.Coll, st.Shard, from, len(log)); len(un) > 0 {
 				cls := ""
-				if c := r.collByID[st.Coll]; c != nil && c.Down && !r.hasCheckpoint(st.Coll, st.PCh) {
+				if c := r.collByID[st.Coll]; c != nil && c.Down && !r.hasCheckpoint(owner, st.Coll, st.PCh) {
 					// known finding: for a collection that existed downstream before the task (no create request, no start
 					// position stored) nothing is persisted until the first pack of the channel is acknowledged and recorded;
 					// a stop before that starts the stream at the end of the channel again
@@ -320,14 +320,14 @@ func (r *RigS) onRegistration(st *SimStream) {
 	}
 }
 
-// hasCheckpoint: some task record holds a position of this collection on this source channel.
-func (r *RigS) hasCheckpoint(coll int64, pch string) bool {
+// hasCheckpoint: the task's record holds a position of this collection on this source channel.
+func (r *RigS) hasCheckpoint(task string, coll int64, pch string) bool {
 	poss, err := r.storePositions()
 	if err != nil {
 		return true
 	}
 	for _, p := range poss {
-		if p.CollectionID == coll {
+		if p.CollectionID == coll && p.TaskID == task {
 			if pi := p.Positions[pch]; pi != nil && pi.DataPair != nil {
 				return true
 			}
